@@ -429,6 +429,7 @@ NextOid ==
   \/ \E c \in Client : Abort(c)
   \/ NewOid
   \/ CloseReopen
+  \/ \E sec \in 0..(MaxClock + 1), gc \in BOOLEAN : PackQ(sec, gc)
 \* undo-heavy: once two transactions are committed, transactions consist of undo calls
 NextUndo ==
   \/ \E c \in Client, m \in Metas, clk \in 1..MaxClock : Begin(c, m, clk)
